@@ -173,6 +173,16 @@ func mkBalances(in map[string]map[string]string) interpreter.Balances {
 			if !ok {
 				panic("bad balance " + v)
 			}
+			// spare capacity behind the digits: arithmetic done in place on this number, or on a shallow copy of it
+			// (a struct copy shares the digit array), then writes into the store's own memory instead of reallocating
+			words := n.Bits()
+			room := make([]big.Word, len(words), len(words)+4)
+			copy(room, words)
+			neg := n.Sign() < 0
+			n = new(big.Int).SetBits(room)
+			if neg {
+				n.Neg(n)
+			}
 			out[a][c] = n
 		}
 	}
